@@ -90,6 +90,16 @@ def run_case(case):
             st = conv.process()
             conv.sr.close()
             res.check(st == 1, "lfp:status", f"{label}: process() returned {st}")
+            if w == wsel[-1]:
+                # forced re-run over the output that is already there: the LF stream must again be exactly ceil(n/12) samples of the same content
+                b2 = b if b.exists() else b.with_suffix(".cbin")
+                conv = neuropixel.NP2Converter(b2, post_check=False, compress=compress, delete_original=False)
+                conv.init_params(nwindow=w)
+                st = conv.process(overwrite=True)
+                conv.sr.close()
+                label += " (forced re-run over existing output)"
+                res.check(st == 1, "lfp:status", f"{label}: process(overwrite=True) returned {st}")
+                res.count("reruns")
         except Exception as e:
             res.exception("lfp:exception", e, label)
             continue
